@@ -286,7 +286,7 @@ pub static C12: PropSpec = PropSpec {
     id: "C12",
     simulator: "S-sim + R-sim(TLS)",
     level: "exploration",
-    runs: |t| if t == Tier::Thorough { 2_000_000 } else { 150_000 },
+    runs: |t| if t == Tier::Thorough { 20_000_000 } else { 150_000 },
     enumerated: |t| crate::props::c12_tls::count(t),
     run,
     rule: "seeded: server hellos from the matrix base {1.0, 1.1, both, neither} x other capabilities x session-id {valid incl. 1 and 2^32-1, 0, 2^32, negative, missing, duplicated, zero-padded, non-numeric, empty} x namespace prefix/default x element order x wrong namespace / missing <capabilities> / a second <capabilities> element with another list; the hello is available before the client's hello is accepted, or the server waits for the client hello first; client send back-pressure; permuted scheduling with spurious polls. enumerated: real TLS transport against a peer that uses RFC 6242 chunked framing when both hellos advertise :base:1.1. Non-trivial = the hello should establish a session; distinct = distinct event-log hash",
